@@ -329,6 +329,11 @@ def diff_run(ctx, entries=None, report=None):
                             continue
                         if e.wrong == 'false' and o == ('bool', False):
                             continue
+                        if n == 0 and o[0] == 'obj' and o[2] == 0:
+                            # the empty list/sequence handed to a class constructor is the empty COLLECTION of values (zero poses),
+                            # not a zero-length vector: an empty object, as Empty(), is the documented answer (fix 1105ad0)
+                            ctx.count('table:empty-collection-gives-empty-object')
+                            continue
                         ok_ = 'none' if o[0] == 'none' else 'exc-returned' if o[0] == 'exc-object' else 'value'
                         report(f"wronglen:{e.name}:{ok_}:{fgroup(form)}:{lenclass}",
                                f"{e.name}: {form} form of WRONG length {n} (accepted: {sorted(e.dims)}) is not rejected: {show(o)}", rep)
